@@ -736,8 +736,8 @@ Proof.
       assert (Hbk : getb (av st1) (N.of_nat (N.to_nat i)) = true) by (rewrite N2Nat.id; exact Hbi).
       destruct (accept_one_inv nl _ (accept_one_fuel st1) st1 {| c_id := c; c_tok := tok |} ys (N.to_nat i)
                   HI1 Hys Hik Hbk eq_refl) as (st2 & Hs & HI2 & Hwq & Hls & Hp & Hst & Hnow & _ & Hlw & HTI).
-      { unfold accept_one_fuel, st1. cbn. rewrite Hh, seq_length. unfold cdist.
-        destruct (Nat.leb (next st) (N.to_nat i)); lia. }
+      { unfold accept_one_fuel, st1. cbn [handles upd_lst set_lsts ws next]. rewrite Hh, seq_length. unfold cdist.
+        destruct (Nat.leb (next st) (N.to_nat i)); nia. }
       rewrite Hs.
       destruct (nf_ys_hd _ Hys) as [_ Htl].
       assert (Hm2 : lmeas (lsts st2) tok + ysize (tl ys) < f).
